@@ -1,3 +1,207 @@
-import Sop.Model.Erasure
+import Sop.Props.C25
+/-! # C26 — shard auto-repair restores full redundancy (`RepairCorruptedShards = true`)
+
+About `Variant.fixed`; on the pinned code the repairing read dies on mixed damage before any repair
+(`C25.C25_counterexample_nil_metadata`). -/
 namespace Sop.C26
+open Sop.Erasure Sop.C25
+
+/-- every damaged shard file is absent, shorter than the prefix, or damaged in its body (not in the
+17-byte metadata prefix only — those are not repaired, see `C26_counterexample_metadata_only`) -/
+def BodyDamage (files0 : List Bytes) (fs : List (Option Bytes)) : Prop :=
+  ∀ x ∈ fs.zip files0, ∀ b, x.1 = some b → b ≠ x.2 → metaSize ≤ b.length →
+    b.drop metaSize ≠ x.2.drop metaSize
+
+/-- in how many positions two directory states differ -/
+def differ (fs fs2 : List (Option Bytes)) : Nat := (fs2.zip fs).countP fun x => x.1 != x.2
+
+section
+variable {C : Code} (hC : C.Laws) (md5 : Bytes → Bytes) (hmd : ∀ b, (md5 b).length = 16)
+  (data : Bytes) (hdata : data ≠ []) (hd : 0 < C.d) (h256 : C.d < 256)
+  (files0 : List Bytes) (he : encodeFiles C md5 data = some files0)
+  (fs : List (Option Bytes)) (hlen : fs.length = files0.length)
+include hC hmd hdata hd h256 he hlen
+
+/-- **C26**: with repair on, a read of a blob with at most `p` damaged shard files (damage the
+checksum detects, not confined to the metadata prefix) returns the stored bytes AND leaves every
+shard file byte-equal to a fresh encode. -/
+theorem C26_repair (hdam : damaged files0 fs ≤ C.p) (hdet : ChecksumDetects md5 files0 fs)
+    (hbody : BodyDamage files0 fs) :
+    (∃ idxs, (getOne .fixed C md5 true fs).1 = .ok data idxs) ∧
+      (getOne .fixed C md5 true fs).2.1 = files0.map some := by
+  refine ⟨C25_read hC md5 hmd data hdata hd h256 files0 he fs hlen hdam hdet true, ?_⟩
+  have hpos : 0 < data.length := List.length_pos_iff.mpr hdata
+  have hf : files0 = (cwOf C data).map (shardFile md5 C.d data.length) := by
+    unfold encodeFiles encode at he
+    rw [if_neg (by omega)] at he
+    simp only [Option.map_some, Option.some.injEq] at he
+    exact he.symm
+  have hl2 : fs.length = (cwOf C data).length := by rw [hlen, hf, List.length_map]
+  have h1 : (fs.zip (cwOf C data)).map (·.1) = fs := List.map_fst_zip (by omega)
+  have h2 : (fs.zip (cwOf C data)).map (·.2) = cwOf C data := List.map_snd_zip (by omega)
+  have hz : fs.zip files0 = (fs.zip (cwOf C data)).map (fun x => (x.1, shardFile md5 C.d data.length x.2)) := by
+    rw [hf, List.zip_map_right]
+    apply List.map_congr_left
+    intro x _; rfl
+  have hdt : Detects md5 C.d data.length (fs.zip (cwOf C data)) := by
+    intro x hx b hb hne hl
+    refine hdet (x.1, shardFile md5 C.d data.length x.2) ?_ b hb hne hl
+    rw [hz]; exact List.mem_map.mpr ⟨x, hx, rfl⟩
+  have hcl : (cwOf C data).length = C.d + C.p :=
+    cw_length hC (perShard_pos C.d data.length hd hpos) hd (split_length C.d data) (split_each C.d data hd)
+  have hn : (fs.zip (cwOf C data)).length = C.d + C.p := by
+    have := congrArg List.length h2
+    rw [List.length_map] at this; omega
+  have hcnt : (fs.zip (cwOf C data)).countP (intact md5 C.d data.length) + damaged files0 fs = C.d + C.p := by
+    unfold damaged
+    rw [hz, List.countP_map, ← hn, List.length_eq_countP_add_countP (intact md5 C.d data.length)]
+    congr 1
+    apply List.countP_congr
+    intro x _; simp [intact]
+  have hk : C.d ≤ (fs.zip (cwOf C data)).countP (intact md5 C.d data.length) := by omega
+  have e : fs.map rd = (fs.zip (cwOf C data)).map fun x => rd x.1 := by
+    conv => lhs; rw [← h1, List.map_map]
+    rfl
+  obtain ⟨x, hx, hi⟩ := List.countP_pos_iff.mp (show 0 < (fs.zip (cwOf C data)).countP (intact md5 C.d data.length) by omega)
+  have hrx : rd x.1 = (some x.2, some (padCount C.d data.length :: md5 x.2)) := by
+    obtain ⟨f, c⟩ := x
+    simp only [intact, beq_iff_eq] at hi
+    subst hi
+    exact rd_file md5 C.d data.length hmd c
+  have hne : ((fs.map rd).all fun x => x.1.isNone) = false := by
+    rw [e, List.all_eq_false]
+    exact ⟨rd x.1, List.mem_map.mpr ⟨x, hx, rfl⟩, by rw [hrx]; simp⟩
+  have hcw := h2.symm
+  have hfz : files0 = (fs.zip (cwOf C data)).map fun x => shardFile md5 C.d data.length x.2 := by
+    rw [hf]
+    conv => lhs; rw [hcw]
+    rw [List.map_map]; rfl
+  have hfiles : files0.map some = (fs.zip (cwOf C data)).map fun x => some (shardFile md5 C.d data.length x.2) := by
+    conv => lhs; rw [hfz]
+    rw [List.map_map]; rfl
+  -- the rewrite of exactly the shards that were nil after the checksum pass makes every file fresh
+  have hrew : rewrite fs files0 (nilIdx (maskOf md5 C.d data.length (fs.zip (cwOf C data))) 0) = files0.map some := by
+    rw [hfiles]
+    have := rewrite_aux md5 C.d data.length (fs.zip (cwOf C data)) 0
+      (nilIdx (maskOf md5 C.d data.length (fs.zip (cwOf C data))) 0)
+      (by intro i _; unfold maskOf; exact List.contains_iff_mem)
+    rw [← this]
+    unfold rewrite
+    rw [h1, ← hfz]
+  by_cases hv : verify C (((fs.zip (cwOf C data)).map fun x => rd x.1).map (·.1)) = .pass
+  · -- fast path: every body is the original one; by `BodyDamage` every file is then intact
+    have h2' := verify_pass_eq hC md5 data hpos hd h256 hmd _ h2 hdt hk (by rw [List.map_map] at hv; exact hv)
+    have hdec := decode_fixed_fast hC md5 data hpos hd h256 hmd _ h2 hdt hv (by rw [List.map_map]; exact h2')
+    rw [if_pos (by
+      rw [List.any_eq_true]
+      refine ⟨rd x.1, List.mem_map.mpr ⟨x, hx, rfl⟩, ?_⟩
+      rw [hrx]; simp [metaMatches, hmd, metaSize])] at hdec
+    rw [getOne_fixed_files C md5 fs data [] files0 hne (by rw [e]; exact hdec) he]
+    simp only [List.isEmpty_nil, if_true]
+    rw [hfiles]
+    conv => lhs; rw [← h1]
+    apply List.map_congr_left
+    intro y hy
+    have hb : (rd y.1).1 = some y.2 := by
+      have h2'' : (fs.zip (cwOf C data)).map (fun x => (rd x.1).1) = (fs.zip (cwOf C data)).map (fun x => some x.2) := by
+        rw [h2']
+        conv => lhs; rw [hcw]
+        rw [List.map_map]; rfl
+      exact (List.map_inj_left.mp h2'') y hy
+    obtain ⟨f, c⟩ := y
+    cases f with
+    | none => simp [rd] at hb
+    | some b =>
+      rw [rd_some] at hb
+      split at hb
+      · simp at hb
+      · rename_i hl
+        simp only [Option.some.injEq] at hb
+        have hmem : ((some b : Option Bytes), shardFile md5 C.d data.length c) ∈ fs.zip files0 := by
+          rw [hz]; exact List.mem_map.mpr ⟨_, hy, rfl⟩
+        apply Classical.byContradiction
+        intro hne'
+        have hne2 : b ≠ shardFile md5 C.d data.length c := fun h => hne' (by rw [h])
+        refine hbody _ hmem b rfl hne2 (by omega) ?_
+        rw [hb]
+        have h17 : (padCount C.d data.length :: md5 c).length = metaSize := by simp [hmd, metaSize]
+        unfold shardFile
+        rw [← h17, List.drop_left]
+  · have hdec := decode_fixed_slow hC md5 data hpos hd h256 hmd _ h2 hdt hv
+    rw [if_pos hk] at hdec
+    rw [getOne_fixed_files C md5 fs data _ files0 hne (by rw [e]; exact hdec) he]
+    split
+    · rename_i hemp
+      rw [← hrew, List.isEmpty_iff.mp hemp, rewrite_nil fs files0 hlen]
+    · exact hrew
+
+/-- … hence any further `p` failures are tolerated: whatever happens next to at most `p` of the shard
+files (in a way the checksum detects), the blob is read back exactly. -/
+theorem C26_then_tolerates (hdam : damaged files0 fs ≤ C.p) (hdet : ChecksumDetects md5 files0 fs)
+    (hbody : BodyDamage files0 fs) (fs2 : List (Option Bytes))
+    (hlen2 : fs2.length = (getOne .fixed C md5 true fs).2.1.length)
+    (hnew : differ (getOne .fixed C md5 true fs).2.1 fs2 ≤ C.p) (hdet2 : ChecksumDetects md5 files0 fs2)
+    (repair : Bool) :
+    ∃ idxs, (getOne .fixed C md5 repair fs2).1 = .ok data idxs := by
+  have hrep := (C26_repair hC md5 hmd data hdata hd h256 files0 he fs hlen hdam hdet hbody).2
+  rw [hrep] at hlen2 hnew
+  refine C25_read hC md5 hmd data hdata hd h256 files0 he fs2 (by simpa using hlen2) ?_ hdet2 repair
+  unfold differ at hnew
+  unfold damaged
+  rw [List.zip_map_right, List.countP_map] at hnew
+  exact hnew
+
+end
+
+/-! ## non-vacuity and the limits -/
+
+/-- the hypotheses of `C26_repair` hold for mixed damage within parity (missing + corrupted body), and
+the conclusion is what the model computes: both shards rewritten -/
+example : (getOne .fixed (repCode 2) toyMd5 true [none, some f123c, some f123]).2 =
+    ([some f123, some f123, some f123], [0, 1]) := by decide
+
+example : BodyDamage [f123, f123, f123] [none, some f123c, some f123] := by
+  intro x hx b hb hne hl
+  simp only [List.zip_cons_cons, List.zip_nil_right, List.mem_cons, List.not_mem_nil, or_false] at hx
+  rcases hx with rfl | rfl | rfl
+  · simp at hb
+  · simp only [Option.some.injEq] at hb
+    subst hb
+    decide
+  · simp only [Option.some.injEq] at hb
+    exact absurd hb.symm hne
+
+/-- the full-strength statement without `BodyDamage` -/
+def Statement_C26 : Prop :=
+  ∀ (C : Code), C.Laws → ∀ (md5 : Bytes → Bytes), (∀ b, (md5 b).length = 16) → ∀ (data : Bytes), data ≠ [] →
+    0 < C.d → C.d < 256 → ∀ files0, encodeFiles C md5 data = some files0 → ∀ fs : List (Option Bytes),
+    fs.length = files0.length → damaged files0 fs ≤ C.p → ChecksumDetects md5 files0 fs →
+    (getOne .fixed C md5 true fs).2.1 = files0.map some
+
+/-- a flipped checksum byte (body intact): `Verify` passes, nothing is reported, the file stays damaged -/
+def f123k : Bytes := 0 :: (toyMd5 [1, 2, 3]).set 0 99 ++ [1, 2, 3]
+
+theorem C26_counterexample_metadata_only :
+    (getOne .fixed (repCode 2) toyMd5 true [some f123k, some f123, some f123]) =
+      (.ok [1, 2, 3] [], [some f123k, some f123, some f123], []) := by decide
+
+theorem C26_counterexample : ¬ Statement_C26 := by
+  intro h
+  have := h (repCode 2) (repCode_laws 2) toyMd5 toyMd5_length [1, 2, 3] (by simp) (by decide) (by decide)
+    [f123, f123, f123] (by rfl) [some f123k, some f123, some f123] rfl (by decide)
+    (by
+      intro x hx b hb hne hl
+      simp only [List.zip_cons_cons, List.zip_nil_right, List.mem_cons, List.not_mem_nil, or_false] at hx
+      rcases hx with rfl | rfl | rfl
+      · simp only [Option.some.injEq] at hb
+        subst hb
+        decide
+      · simp only [Option.some.injEq] at hb
+        exact absurd hb.symm hne
+      · simp only [Option.some.injEq] at hb
+        exact absurd hb.symm hne)
+  rw [C26_counterexample_metadata_only] at this
+  revert this
+  decide
+
 end Sop.C26
